@@ -96,6 +96,19 @@ pub fn run(ctx: &'static Ctx) {
         let d = Doc { types, primary: primary.into(), domain: dv, message };
         check_doc(ctx, P, "domain-type-referenced-by-the-message", i, &format!("domain-type={tname},reached-by={g}"), &d);
     });
+    // the same documents with their string literals written with JSON escapes (\u0075int256 is the string uint256): all 31
+    // well-formed selections and the ill-formed ones next to them, three escaping modes - the verdict and the digests of the
+    // plain spelling
+    let mut esc: Vec<(Vec<(String, String)>, u8)> = Vec::new();
+    for mask in 1u32..32 { let m: Vec<(String, String)> = (0..5).filter(|k| mask >> k & 1 == 1).map(|k| (refmodel::eip712::DOMAIN_FIELDS[k].0.to_string(), refmodel::eip712::DOMAIN_FIELDS[k].1.to_string())).collect();
+        for mode in 0..3u8 { esc.push((m.clone(), mode)); if m.len() >= 2 { let mut r = m.clone(); r.reverse(); esc.push((r, mode)); } let mut w = m.clone(); w[0].1 = "uint8".into(); esc.push((w, mode)); } }
+    ctx.sweep("json-escaped-spellings", "all 31 well-formed domain types, their reversals and a wrongly typed variant, the whole document written with \\uXXXX escapes in its string literals (first character of every literal; every letter and digit; only the values of type / name members): the verdict and digests of the plain spelling", esc.len() as u64, |i| {
+        let (members, mode) = &esc[i as usize];
+        let dom: Vec<(String, J)> = members.iter().map(|(n, _t)| (n.clone(), value_for(refmodel::eip712::DOMAIN_FIELDS.iter().find(|(fname, _)| fname == n).unwrap().1))).collect();
+        let d = Doc { types: vec![("EIP712Domain".into(), members.clone()), ("Msg".into(), sv(&[("x", "uint256"), ("s", "string")]))], primary: "Msg".into(), domain: J::Obj(dom), message: J::obj(vec![("x", J::n("7")), ("s", J::s("text"))]) };
+        let text = explore::json_escaped(&d.to_json().reordered(i % 3).to_text(), *mode);
+        check_json(ctx, P, "json-escaped-spellings", i, &format!("escaped-mode-{mode}:{}", if refmodel::eip712::domain_type_well_formed(members) { "well-formed" } else { "ill-formed" }), &text, refmodel::eip712::evaluate(&d));
+    });
     let wf = ctx.classes_matching(|c| c.ends_with(":accepted")); let rj = ctx.classes_matching(|c| c.ends_with(":rejected"));
     ctx.guard_check("well-formed and malformed domains both seen", wf > 0 && rj > 0, format!("{wf} accepting classes, {rj} rejecting classes"));
     crate::hist::histories(ctx, P, "document-histories-c20", "TypedData from JSON and its three digests, a sequence on one fresh thread", crate::hist::td_ops());
